@@ -126,22 +126,33 @@ async def rescan_files(workflow: Workflow, reporter: ReporterClient, builder: Bu
     The following are not checked:
     - Files in the VOLATILE state: they are expected to change.
     - Files in the PLANNED state: they are not yet built, so their content is not relevant.
-    - Detached files: they are not part of the workflow, so their content is not relevant.
+    - Files in the UNDECLARED state: they have no role and no recorded content.
+
+    Detached files are checked like attached ones.
+    A detached node keeps its state and hash and comes back into the workflow as it is
+    when the step that declared it is recreated unchanged and skipped
+    (see `Workflow.update_file_hashes` and `Workflow.mark_consuming_steps_pending`).
+    A change made while StepUp was not running would otherwise only be noticed
+    when a step that uses the file is dispatched,
+    and reported as an input that changed unexpectedly during the build.
     """
     sql = (
-        "SELECT label, state, hash "
-        "FROM node JOIN file ON node.i = file.node AND state NOT IN (?, ?) AND NOT detached"
+        "SELECT label, state, hash, detached "
+        "FROM node JOIN file ON node.i = file.node AND state NOT IN (?, ?, ?) ORDER BY node.i"
     )
-    data = (FileState.PLANNED.value, FileState.VOLATILE.value)
+    data = (FileState.PLANNED.value, FileState.VOLATILE.value, FileState.UNDECLARED.value)
     async with workflow.db:
         rows = workflow.db.execute(sql, data).fetchall()
     if len(rows) == 0:
         return
 
-    await reporter("STARTUP", f"Checking {len(rows)} file(s) for changes")
+    # Only the files of the workflow are reported; the detached ones are brought up to date silently.
+    silent = {path for path, _, _, detached in rows if detached}
+    if len(rows) > len(silent):
+        await reporter("STARTUP", f"Checking {len(rows) - len(silent)} file(s) for changes")
     old_hashes = {}
     path_hash_causes = []
-    for path, state, hash_value in rows:
+    for path, state, hash_value, _ in rows:
         old_file_hash = FileHash.from_json(hash_value)
         old_hashes[path] = old_file_hash
         # A stray `UNCONFIRMED` row is left behind by a director killed
@@ -162,7 +173,7 @@ async def rescan_files(workflow: Workflow, reporter: ReporterClient, builder: Bu
 
     for path, new_file_hash in new_hashes.items():
         old_file_hash = old_hashes[path]
-        if old_file_hash != new_file_hash:
+        if old_file_hash != new_file_hash and path not in silent:
             if new_file_hash.is_unknown:
                 await reporter("DELETED", path)
             else:
